@@ -40,6 +40,68 @@ func (p *Program) fieldWrites() map[*types.Func]map[string]bool {
 		if fd.Body == nil {
 			continue
 		}
+		// locals that only ever hold an object allocated in this function: a
+		// field written through them is not a field of anything the caller knows
+		fresh := map[types.Object]bool{}
+		stale := map[types.Object]bool{}
+		isAlloc := func(e ast.Expr) bool {
+			switch x := ast.Unparen(e).(type) {
+			case *ast.CompositeLit:
+				return true
+			case *ast.UnaryExpr:
+				_, ok := ast.Unparen(x.X).(*ast.CompositeLit)
+				return x.Op == token.AND && ok
+			case *ast.CallExpr:
+				if id, ok := x.Fun.(*ast.Ident); ok && id.Name == "new" {
+					_, isBuiltin := p.Info.Uses[id].(*types.Builtin)
+					return isBuiltin
+				}
+			}
+			return false
+		}
+		ast.Inspect(fd.Body, func(n ast.Node) bool {
+			switch x := n.(type) {
+			case *ast.AssignStmt:
+				for i, l := range x.Lhs {
+					id, ok := l.(*ast.Ident)
+					if !ok {
+						continue
+					}
+					o := p.Info.ObjectOf(id)
+					if o == nil {
+						continue
+					}
+					if len(x.Rhs) == len(x.Lhs) && isAlloc(x.Rhs[i]) {
+						fresh[o] = true
+					} else {
+						stale[o] = true
+					}
+				}
+			case *ast.ValueSpec:
+				for i, nm := range x.Names {
+					o := p.Info.ObjectOf(nm)
+					if o == nil {
+						continue
+					}
+					if _, isPtr := o.Type().Underlying().(*types.Pointer); len(x.Values) == 0 && !isPtr {
+						fresh[o] = true // var v T: a zero value of its own
+					} else if i < len(x.Values) && isAlloc(x.Values[i]) {
+						fresh[o] = true
+					} else {
+						stale[o] = true
+					}
+				}
+			case *ast.RangeStmt:
+				for _, e := range []ast.Expr{x.Key, x.Value} {
+					if id, ok := e.(*ast.Ident); ok {
+						if o := p.Info.ObjectOf(id); o != nil {
+							stale[o] = true
+						}
+					}
+				}
+			}
+			return true
+		})
 		markLHS := func(e ast.Expr) {
 			for {
 				switch x := e.(type) {
@@ -51,6 +113,11 @@ func (p *Program) fieldWrites() map[*types.Func]map[string]bool {
 					return
 				case *ast.SelectorExpr:
 					if sel := p.Info.Selections[x]; sel != nil && sel.Kind() == types.FieldVal {
+						if id, ok := ast.Unparen(x.X).(*ast.Ident); ok {
+							if o := p.Info.ObjectOf(id); o != nil && fresh[o] && !stale[o] {
+								return
+							}
+						}
 						direct[f][x.Sel.Name] = true
 					}
 				}
